@@ -190,7 +190,7 @@ func evalCond(v ssa.Value, a Assumption, depth int) (bool, bool) {
 		res := false
 		for i, ed := range x.Edges {
 			pred := x.Block().Preds[i]
-			if !edgeFeasible(pred, x.Block(), a, depth) {
+			if !edgeFeasible(pred, x.Block(), a, depth) || !blockFeasible(pred, a, depth) {
 				continue
 			}
 			k, val := evalCond(ed, a, depth+1)
@@ -797,4 +797,16 @@ func reachingStores(a *ssa.Alloc, at ssa.Instruction) []*ssa.Store {
 		}
 	}
 	return out
+}
+
+// blockFeasible: can control reach block b under the assumption? Decided
+// only along single-predecessor chains (cheap, sound: "true" when unsure).
+func blockFeasible(b *ssa.BasicBlock, a Assumption, depth int) bool {
+	for i := 0; i < 6 && len(b.Preds) == 1; i++ {
+		if !edgeFeasible(b.Preds[0], b, a, depth) {
+			return false
+		}
+		b = b.Preds[0]
+	}
+	return true
 }
